@@ -512,6 +512,29 @@ pub fn failure_shapes(rng: &mut Rng) -> Vec<Shape> {
         p.push(Ins::li(A7, 10));
         p.push(Ins::Ecall);
     }));
+    // (a function that leaves only through exit ecalls, one of which is recognised only after the edge behind
+    // another exit has been cut: the `ret` behind them is dead, the function cannot return)
+    let (n1, n2) = *rng.pick(&[(10, 93), (93, 10), (10, 10)]);
+    let three = rng.chance(0.4);
+    v.push(mk("must-fail:function-leaves-only-through-exits", &|p| {
+        p.push(Ins::call("bye"));
+        exit(p);
+        p.label("bye");
+        p.push(Ins::li(A7, n1));
+        p.push(Ins::Branch { c: Cond::Eq, rs1: A0, rs2: ZERO, label: "second".into() });
+        if three {
+            p.push(Ins::Branch { c: Cond::Eq, rs1: 11, rs2: ZERO, label: "third".into() });
+        }
+        p.push(Ins::li(A7, n2));
+        p.push(Ins::Ecall);
+        p.label("second");
+        p.push(Ins::Ecall);
+        if three {
+            p.label("third");
+            p.push(Ins::Ecall);
+        }
+        p.push(Ins::ret());
+    }));
     v.push(mk("function-falls-off-end", &|p| {
         p.push(Ins::call("open_end"));
         exit(p);
